@@ -1,7 +1,7 @@
 (* Props/C20.v — generators and aggregating constructors build what they advertise.
    Only statements, `exact`, Print Assumptions, and concrete Examples (non-vacuity). *)
-From Coq Require Import List Arith ZArith Bool QArith Qcanon Sorting.Sorted.
-From PV Require Import Base.Index Base.Sum Base.Perm Np.Array Model.Sparse Model.Repr Model.Harness Model.C20Gen Model.C20Harness Proofs.C20Proofs Proofs.C20Teneye Proofs.C20TeneyeGen Proofs.C20Guards Proofs.C20W3 Proofs.C20TeneyeEntry.
+From Coq Require Import List Arith ZArith Bool QArith Qcanon Sorting.Sorted Permutation.
+From PV Require Import Base.Index Base.Sum Base.Perm Np.Array Model.Sparse Model.Repr Model.Harness Model.C20Gen Model.C20Harness Proofs.C20Proofs Proofs.C20Teneye Proofs.C20TeneyeGen Proofs.C20Guards Proofs.C20W3 Proofs.C20TeneyeEntry Proofs.C20Sat Proofs.C20TeneyeAll Proofs.C20Float.
 Import ListNotations.
 Local Open Scope nat_scope.
 
@@ -216,39 +216,51 @@ Theorem C20_requested_count_refuted : ~ requested_count_stmt.
 Proof. exact requested_count_refuted. Qed.
 
 (* sptenrand(density = p/q) after the repair of C20-N1: the count handed to the generator IS floor(prod(shape) * density)
-   for every density in (0,1) and every non-empty shape (a count of zero included: the empty tensor, repair C20-N2) *)
+   for every density in (0,1) and every non-empty shape (a count of zero included: the empty tensor, repair C20-N2);
+   such a request is never the saturated one *)
 Theorem C20_density_count : forall (total : nat) (p : Z) (q : positive),
   0 < total -> (0 < p < Zpos q)%Z ->
-  sptenrand_count_impl total p q = Some (sptenrand_count_spec total p q).
+  sptenrand_count_impl total p q = Some (false, sptenrand_count_spec total p q).
 Proof. exact density_count. Qed.
 
 (* the guard of sptenrand: a density outside (0,1] is rejected; density = 1 passes the guard, the property admits it
-   (all prod(shape) entries) but from_function rejects it (open finding C20-N3) *)
+   (all prod(shape) entries) and - after the repair of C20-N3, /repo 2b4b024 - so does from_function: the SATURATED request *)
 Theorem C20_density_guard : forall (total : nat) (p : Z) (q : positive),
   ((p <= 0)%Z \/ (Zpos q < p)%Z -> sptenrand_count_impl total p q = None /\ sptenrand_request_spec total p q = None) /\
-  (p = Zpos q -> sptenrand_count_impl total p q = None /\ sptenrand_request_spec total p q = Some total).
+  (p = Zpos q -> 0 < total ->
+   sptenrand_count_impl total p q = Some (true, total) /\ sptenrand_request_spec total p q = Some total).
 Proof. exact density_guard. Qed.
 
-(* sptensor.from_function's reading of a request p/q as an exact rational (t = prod(shape)):
-   rejected iff p/q < 0 or p/q >= t;  0 <= p/q < 1 is a density -> ceil(t * p/q) in [0, t], positive iff p > 0;
-   1 <= p/q < t is a count -> floor(p/q) in [1, t) *)
+(* sptensor.from_function's reading of a request p/q as an exact rational (t = prod(shape)), after /repo 2b4b024:
+   rejected iff p/q < 0 or p/q > t or t = 0;  p/q = t: SATURATED, count t;
+   0 <= p/q < 1 is a density -> ceil(t * p/q) in [0, t], positive iff p > 0;  1 <= p/q < t is a count -> floor(p/q) in [1, t) *)
 Theorem C20_norm_request : forall (total : nat) (p : Z) (q : positive),
   let t := Z.of_nat total in
-  ((p < 0)%Z \/ (t * Zpos q <= p)%Z -> norm_request total p q = None) /\
+  (norm_request total p q = None <-> (p < 0)%Z \/ (t * Zpos q < p)%Z \/ total = 0) /\
+  (0 < total -> p = (t * Zpos q)%Z -> norm_request total p q = Some (true, total)) /\
   ((0 <= p < Zpos q)%Z -> (p < t * Zpos q)%Z ->
-     exists c, norm_request total p q = Some c /\ Z.of_nat c = zceil (t * p) q /\
+     exists c, norm_request total p q = Some (false, c) /\ Z.of_nat c = zceil (t * p) q /\
                (Zpos q * (Z.of_nat c - 1) < t * p <= Zpos q * Z.of_nat c)%Z /\ c <= total /\ (0 < c <-> (0 < p)%Z)) /\
   ((Zpos q <= p < t * Zpos q)%Z ->
-     exists c, norm_request total p q = Some c /\ Z.of_nat c = (p / Zpos q)%Z /\
+     exists c, norm_request total p q = Some (false, c) /\ Z.of_nat c = (p / Zpos q)%Z /\
                (Zpos q * Z.of_nat c <= p < Zpos q * (Z.of_nat c + 1))%Z /\ 1 <= c < total).
 Proof. exact norm_request_cases. Qed.
 
-(* the code reads every request as the property does, except a request EQUAL to the tensor size (C20-N3, open) *)
+(* the saturated branch is taken exactly when the request equals the (positive) tensor size; its count is the size *)
+Theorem C20_norm_request_saturated : forall (total : nat) (p : Z) (q : positive) (c : nat),
+  norm_request total p q = Some (true, c) <-> (p = (Z.of_nat total * Zpos q)%Z /\ 0 < total /\ c = total).
+Proof. exact norm_request_saturated. Qed.
+
+(* UNCONDITIONAL since the repair of C20-N3: the code reads EVERY request as the property does - rejected alike, same
+   count otherwise (the request equal to the tensor size included; the exception of the defect is gone) *)
 Theorem C20_norm_request_vs_spec : forall (total : nat) (p : Z) (q : positive),
-  (p <> Z.of_nat total * Zpos q -> norm_request total p q = norm_request_spec total p q)%Z /\
-  norm_request total (Z.of_nat total * Zpos q) q = None /\
-  norm_request_spec total (Z.of_nat total * Zpos q) q = Some (if total =? 0 then 0 else total).
-Proof. exact (fun total p q => conj (norm_request_eq_spec total p q) (norm_request_at_size total q)). Qed.
+  option_map snd (norm_request total p q) = norm_request_spec total p q.
+Proof. exact norm_request_eq_spec. Qed.
+
+(* ... and sptenrand reads EVERY density as the property does: floor(prod(shape) * density) for 0 < density <= 1 *)
+Theorem C20_density_vs_spec : forall (total : nat) (p : Z) (q : positive),
+  option_map snd (sptenrand_count_impl total p q) = sptenrand_request_spec total p q.
+Proof. exact density_eq_spec. Qed.
 
 (* FLOAT CAVEAT: pyttb forms prod(shape)*nonzeros resp. prod(shape)*density in double arithmetic. The faithful models
    take the rounded product rn/rd as an input; whenever that product is exact they are the exact-rational models above *)
@@ -257,6 +269,30 @@ Theorem C20_request_float_product : forall (total : nat) (p : Z) (q : positive) 
   norm_request_fl total p q rn rd = norm_request total p q /\
   sptenrand_count_fl total p q rn rd = sptenrand_count_impl total p q.
 Proof. exact (fun total p q rn rd H => conj (norm_request_fl_exact total p q rn rd H) (sptenrand_count_fl_exact total p q rn rd H)). Qed.
+
+(* wave 4: the model ROUNDS THE PRODUCT ITSELF (C20Gen.round64: the binary64 number nearest to a rational, ties to even,
+   normal range): norm_request_r64 / sptenrand_count_r64 take nothing but the request.  A representable value
+   n/d = m * 2^e0 (0 < m < 2^53; written n * pow2n e0 = m * pow2p e0 * d with 2^e0 = pow2p e0 / pow2n e0) is its own rounding *)
+Theorem C20_round64_exact : forall (n : Z) (d : positive) (m e0 : Z),
+  (0 < n)%Z -> (0 < m < 2 ^ 53)%Z -> (n * pow2n e0 = m * pow2p e0 * Zpos d)%Z ->
+  (fst (round64 n d) * Zpos d = n * Zpos (snd (round64 n d)))%Z.
+Proof. exact round64_exact. Qed.
+
+(* ... hence, whenever the exact product prod(shape) * p/q is a binary64 number (or the request is not positive), the
+   faithful models with the rounded product ARE the exact-rational models of C20_norm_request / C20_density_count *)
+Theorem C20_request_r64 : forall (total : nat) (p : Z) (q : positive),
+  (Z.of_nat total * p <= 0)%Z \/
+  (exists m e0, (0 < m < 2 ^ 53)%Z /\ (Z.of_nat total * p * pow2n e0 = m * pow2p e0 * Zpos q)%Z) ->
+  norm_request_r64 total p q = norm_request total p q /\
+  sptenrand_count_r64 total p q = sptenrand_count_impl total p q.
+Proof. exact norm_request_r64_exact. Qed.
+
+(* in particular for every dyadic request / density p / 2^(j+1) with prod(shape) * p < 2^53 (1/2, 1/4, 3/4, ...) *)
+Theorem C20_request_r64_dyadic : forall (total : nat) (p : Z) (j : nat),
+  (0 <= Z.of_nat total * p < 2 ^ 53)%Z ->
+  norm_request_r64 total p (Pos.pow 2 (Pos.of_succ_nat j)) = norm_request total p (Pos.pow 2 (Pos.of_succ_nat j)) /\
+  sptenrand_count_r64 total p (Pos.pow 2 (Pos.of_succ_nat j)) = sptenrand_count_impl total p (Pos.pow 2 (Pos.of_succ_nat j)).
+Proof. exact norm_request_r64_dyadic. Qed.
 
 (* the guards of from_aggregator: accepted exactly when the counts agree and every subscript fits the (given or
    inferred) shape *)
@@ -272,7 +308,12 @@ Print Assumptions C20_density_count.
 Print Assumptions C20_density_guard.
 Print Assumptions C20_norm_request.
 Print Assumptions C20_norm_request_vs_spec.
+Print Assumptions C20_norm_request_saturated.
+Print Assumptions C20_density_vs_spec.
 Print Assumptions C20_request_float_product.
+Print Assumptions C20_round64_exact.
+Print Assumptions C20_request_r64.
+Print Assumptions C20_request_r64_dyadic.
 Print Assumptions C20_aggregator_guard.
 
 (* ---------------------------------------------------------------- teneye *)
@@ -393,17 +434,27 @@ Theorem C20_teneye_odd_multiplicity_zero : forall (i : idx) (v : nat), 2 <= leng
 Proof. exact teneye_count_odd. Qed.
 Theorem C20_teneye_diagonal : forall a m : nat, teneye_count (repeat a m) = fact m.
 Proof. exact teneye_count_diag. Qed.
-(* the general entry formula (C20Gen.teneye_formula: 0 if a multiplicity c_v is odd, else 2^(m/2) (m/2)! prod_v (c_v-1)!!)
-   is stated, NOT proved in general (compared with pyttb's count on every generated teneye case); proved: every subscript
-   of order <= 4, and for every even order the subscripts with an odd multiplicity and the constant subscripts *)
+(* THE GENERAL ENTRY FORMULA (wave 4; the statement C20_teneye_entry_formula_stmt of wave 3b, now PROVED for every
+   subscript of every even order): pyttb's count of the rearrangements of i whose pairs match is
+   C20Gen.teneye_formula i = 0 if some value occurs an odd number of times, else 2^(m/2) (m/2)! prod_v (c_v - 1)!!
+   over the multiplicities c_v - so the entry A[i] = teneye_count i / m! is that closed form over m! *)
 Definition C20_teneye_entry_formula_stmt : Prop := teneye_entry_formula_stmt.
-Theorem C20_teneye_entry_formula_partial : forall i : idx, Nat.even (length i) = true ->
-  length i <= 4 \/ (exists v, Nat.even (count_occ Nat.eq_dec i v) = false) \/ (exists a, i = repeat a (length i)) ->
-  teneye_count i = teneye_formula i.
-Proof. exact teneye_entry_formula_partial. Qed.
+Theorem C20_teneye_entry_formula : forall i : idx, Nat.even (length i) = true -> teneye_count i = teneye_formula i.
+Proof. exact teneye_entry_formula. Qed.
+Theorem C20_teneye_entry_closed : forall (m : nat) (i : idx), Nat.even (length i) = true ->
+  teneye_entry m i = teneye_entry_f m i.
+Proof. exact teneye_entry_closed. Qed.
+(* the structure of pyttb's enumeration of rearrangements the proof rests on: as a multiset it splits by the first and by
+   the last element, and is closed under rotation (pyttb pairs the LAST with the first position, then consecutive ones) *)
+Theorem C20_perms_structure : forall l : list nat,
+  (l <> [] -> Permutation (perms l) (flat_map hd_block (sel l)) /\ Permutation (perms l) (flat_map last_block (sel l))) /\
+  Permutation (map rot (perms l)) (perms l).
+Proof. exact perms_structure. Qed.
 Print Assumptions C20_teneye_odd_multiplicity_zero.
 Print Assumptions C20_teneye_diagonal.
-Print Assumptions C20_teneye_entry_formula_partial.
+Print Assumptions C20_teneye_entry_formula.
+Print Assumptions C20_teneye_entry_closed.
+Print Assumptions C20_perms_structure.
 
 (* ---------------------------------------------------------------- non-vacuity: concrete, non-symmetric instances *)
 Example C20_example_from_function :
@@ -435,11 +486,13 @@ Example C20_example_sprand :
   cand [2; 3] d1 = [[0; 1]] /\
   sprand_subs 2 [2; 3] [d1; d2] = [[0; 0]; [1; 1]] /\ sprand_consumed 2 [2; 3] [d1; d2] = 2 /\
   sprand_subs 2 [2; 3] [d2; d1] = [[0; 0]; [1; 1]] /\ sprand_consumed 2 [2; 3] [d2; d1] = 1 /\
-  norm_request 6 1 2 = Some 3 /\ norm_request 6 5 1 = Some 5 /\ norm_request 6 6 1 = None /\
-  norm_request 6 0 1 = Some 0 /\ norm_request_spec 6 6 1 = Some 6 /\
-  sptenrand_count_impl 100 1 200 = Some 0 /\ sptenrand_count_impl 100 1 4 = Some 25 /\ sptenrand_count_impl 4 1 1 = None /\
-  sptenrand_count_fl 3 1 3 1 1 = Some 1 /\ sptenrand_count_impl 3 1 3 = Some 1 /\
-  norm_request_fl 3 1 3 1 1 = Some 1.
+  norm_request 6 1 2 = Some (false, 3) /\ norm_request 6 5 1 = Some (false, 5) /\ norm_request 6 6 1 = Some (true, 6) /\
+  norm_request 6 13 2 = None /\ norm_request 0 0 1 = None /\ norm_request 2 9 10 = Some (false, 2) /\
+  norm_request 6 0 1 = Some (false, 0) /\ norm_request_spec 6 6 1 = Some 6 /\
+  sptenrand_count_impl 100 1 200 = Some (false, 0) /\ sptenrand_count_impl 100 1 4 = Some (false, 25) /\
+  sptenrand_count_impl 4 1 1 = Some (true, 4) /\
+  sptenrand_count_fl 3 1 3 1 1 = Some (false, 1) /\ sptenrand_count_impl 3 1 3 = Some (false, 1) /\
+  norm_request_fl 3 1 3 1 1 = Some (false, 1).
 Proof. vm_compute. repeat split; reflexivity. Qed.
 
 Example C20_example_teneye : map teneye_count [[0; 0; 0; 0]; [0; 0; 1; 1]; [0; 1; 0; 1]; [0; 0; 0; 1]] = [24; 8; 8; 0].
@@ -485,3 +538,108 @@ Example C20_example_teneye_entries :
   forallb (fun mn => forallb (fun i => teneye_count i =? teneye_formula i) (allsubs (repeat (snd mn) (fst mn))))
           [(2, 3); (4, 3); (6, 2); (0, 2)] = true.
 Proof. exact teneye_entries_example. Qed.
+
+(* ---------------------------------------------------------------- wave 4: the saturated request (repair of C20-N3) *)
+(* np.ndindex: all_rows s lists EXACTLY the subscripts of the shape, prod(shape) of them, strictly ascending (first mode
+   most significant) - the stored order of every sparse generator *)
+Theorem C20_all_rows : forall s : shape,
+  length (all_rows s) = size s /\ (forall i, In i (all_rows s) <-> inb s i = true) /\
+  StronglySorted idx_lt (all_rows s) /\ NoDup (all_rows s).
+Proof. exact all_rows_spec. Qed.
+
+(* the body of sptensor.from_function as ONE function of the list the loop starts from: the empty start is the ordinary
+   request (sprand_subs: C20_sprand_post / _count / _union_repair apply); a start that already holds the requested
+   number of rows is returned untouched and no draw is consumed, whatever the stream holds *)
+Theorem C20_sprand_from : forall (init : list idx) (nz : nat) (s : shape) (draws : list (list (list Z))),
+  (sprand_subs_from [] nz s draws = sprand_subs nz s draws /\ sprand_consumed_from [] nz s draws = sprand_consumed nz s draws) /\
+  (sprand_subs_from init (length init) s draws = init /\ sprand_consumed_from init (length init) s draws = 0).
+Proof. exact sprand_from_spec. Qed.
+
+(* SATURATED request (request = prod(shape)): every subscript of the shape is stored, in np.ndindex order; no draw is
+   consumed (seeded streams are left untouched); the number of stored subscripts is the size *)
+Theorem C20_saturated_request : forall (s : shape) (draws : list (list (list Z))),
+  sprand_req_subs true (size s) s draws = all_rows s /\
+  sprand_req_consumed true (size s) s draws = 0 /\
+  length (sprand_req_subs true (size s) s draws) = size s /\
+  (forall i, In i (sprand_req_subs true (size s) s draws) <-> inb s i = true).
+Proof. exact sprand_req_saturated. Qed.
+
+Section C20_sprand_req.
+Context {V : Type} (v0 : V) (isz : V -> bool).
+(* EVERY normalised request (saturated or not), whatever the draws: well-formed, requested shape, values = the supplied
+   function's output, at most the requested number of nonzeros *)
+Theorem C20_sprand_req_post : forall (sat : bool) (nz : nat) (s : shape) (draws : list (list (list Z))) (vals : list V),
+  Forall (fun d => 0 < d) s -> Forall (valid_draw s) draws ->
+  length vals = length (sprand_req_subs sat nz s draws) -> Forall (fun v => isz v = false) vals ->
+  wf_sp isz (sprand_req sat nz s draws vals) /\ sshape (sprand_req sat nz s draws vals) = s /\
+  svals (sprand_req sat nz s draws vals) = vals /\ nnz (sprand_req sat nz s draws vals) <= nz.
+Proof. exact (sprand_req_wf isz). Qed.
+
+(* the saturated request is ALWAYS met exactly: nnz = prod(shape); EVERY cell holds the value the function returned
+   for it (the k-th value at the k-th subscript in np.ndindex order) *)
+Theorem C20_saturated_post : forall (s : shape) (draws : list (list (list Z))) (vals : list V),
+  Forall (fun d => 0 < d) s -> length vals = size s -> Forall (fun v => isz v = false) vals ->
+  let S := sprand_req true (size s) s draws vals in
+  wf_sp isz S /\ sshape S = s /\ nnz S = size s /\ ssubs S = all_rows s /\
+  (forall k, k < size s -> den_sp v0 S (nth k (all_rows s) []) = nth k vals v0) /\
+  (forall i, inb s i = true -> exists k, k < size s /\ nth k (all_rows s) [] = i /\ den_sp v0 S i = nth k vals v0).
+Proof. exact (sprand_req_saturated_post v0 isz). Qed.
+End C20_sprand_req.
+
+(* values of EVERY normalised request (saturated or not): the stored values are the supplied function's output verbatim,
+   the entry at the k-th stored subscript is the k-th value, every entry satisfies any predicate that holds of zero and of
+   the output (sptenrand: 0 <= u < 1) *)
+Theorem C20_sprand_req_values : forall (V : Type) (v0 : V) (sat : bool) (nz : nat) (s : shape) (draws : list (list (list Z))) (vals : list V),
+  length vals = length (sprand_req_subs sat nz s draws) ->
+  svals (sprand_req sat nz s draws vals) = vals /\
+  (forall k, k < length vals ->
+     den_sp v0 (sprand_req sat nz s draws vals) (nth k (sprand_req_subs sat nz s draws) []) = nth k vals v0) /\
+  (forall P : V -> Prop, P v0 -> Forall P vals -> forall i, P (den_sp v0 (sprand_req sat nz s draws vals) i)).
+Proof. exact (@sprand_req_values). Qed.
+
+(* from the request p/q to the number of stored subscripts: never more than the normalised count; a request EQUAL to the
+   tensor size always stores exactly the size and consumes no draw (the input class of the repaired finding C20-N3);
+   below the size: min(count, distinct rows over all consumed draws) (C20_sprand_count) *)
+Theorem C20_request_count : forall (s : shape) (p : Z) (q : positive) (draws : list (list (list Z))) (sat : bool) (c : nat),
+  norm_request (size s) p q = Some (sat, c) ->
+  length (sprand_req_subs sat c s draws) <= c /\
+  (sat = true -> (p = Z.of_nat (size s) * Zpos q)%Z /\ c = size s /\ length (sprand_req_subs sat c s draws) = size s /\
+                 sprand_req_consumed sat c s draws = 0) /\
+  (sat = false -> sprand_req_subs sat c s draws = sprand_subs c s draws /\
+                  length (sprand_req_subs sat c s draws) =
+                  Nat.min c (length (dedup (pool_rows s (firstn (sprand_consumed c s draws) draws))))).
+Proof. exact request_count. Qed.
+
+(* stored order of every normalised request: strictly ascending *)
+Theorem C20_sprand_req_sorted : forall sat nz s draws, StronglySorted idx_lt (sprand_req_subs sat nz s draws).
+Proof. exact sprand_req_sorted. Qed.
+
+Print Assumptions C20_all_rows.
+Print Assumptions C20_sprand_from.
+Print Assumptions C20_saturated_request.
+Print Assumptions C20_sprand_req_post.
+Print Assumptions C20_saturated_post.
+Print Assumptions C20_request_count.
+Print Assumptions C20_sprand_req_values.
+Print Assumptions C20_sprand_req_sorted.
+
+(* density 1.0 on (2,2) - the witness of the repaired finding C20-N3 - and a request of 6 on (2,3): all subscripts, no draw *)
+Example C20_example_saturated :
+  let h := (2 ^ 52)%Z in
+  norm_request 4 4 1 = Some (true, 4) /\ sptenrand_count_impl 4 1 1 = Some (true, 4) /\
+  sprand_req_subs true 4 [2; 2] [] = [[0; 0]; [0; 1]; [1; 0]; [1; 1]] /\ sprand_req_consumed true 4 [2; 2] [[[h; h]]] = 0 /\
+  all_rows [2; 3] = [[0; 0]; [0; 1]; [0; 2]; [1; 0]; [1; 1]; [1; 2]] /\
+  sprand_req true 6 [2; 3] [] [1; 2; 3; 4; 5; 6]%Z = mkSp [2; 3] (all_rows [2; 3]) [1; 2; 3; 4; 5; 6]%Z /\
+  (* ceil(2 * 0.9) = 2 = the size, but NOT saturated: the two cells must be drawn *)
+  norm_request 2 9 10 = Some (false, 2) /\ sprand_req_consumed false 2 [2] [[[0]; [h]]%Z] = 1 /\
+  sprand_req_subs false 2 [2] [[[0]; [h]]%Z] = [[0]; [1]].
+Proof. exact saturated_example. Qed.
+
+Example C20_example_teneye_order6 :
+  map teneye_formula [[3; 3; 3; 3; 3; 3]; [0; 1; 0; 0; 1; 0]; [2; 0; 1; 1; 2; 0]; [2; 0; 1; 1; 2; 1]] = [720; 144; 48; 0] /\
+  map teneye_count [[3; 3; 3; 3; 3; 3]; [0; 1; 0; 0; 1; 0]; [2; 0; 1; 1; 2; 0]; [2; 0; 1; 1; 2; 1]] = [720; 144; 48; 0].
+Proof. exact teneye_formula_order6. Qed.
+
+(* 3 * 0.1 rounds to 0.30000000000000004, 2 * 0.9 = 1.8 and 6 * 1/2 = 3 are exact *)
+Example C20_example_round64 : round64_examples_stmt.
+Proof. exact round64_examples. Qed.
